@@ -111,7 +111,10 @@ impl kani::Arbitrary for ParentSibling<u32> {
 #[kani::proof_for_contract(<u32 as TreeIndex>::root)]
 fn c20_root() {
     let n: u32 = kani::any();
-    let _ = n.root();
+    let r = n.root();
+    // the same postcondition restated in the harness body, so that a counterexample can be
+    // replayed against the real function with `cargo kani playback` (contracts are erased there)
+    assert!(n < 1 || spec_root_ok(n as u64, r as u64));
 }
 
 // Case split over the 25 admissible tree sizes n = 2^k, k = 0..=24 (MAX_LEAF_INDEX caps the
@@ -126,7 +129,9 @@ macro_rules! per_level {
         fn $ps() {
             let x: u32 = kani::any();
             let n: u32 = 1u32 << $k;
-            let _ = x.parent_sibling(&n);
+            let r = x.parent_sibling(&n);
+            assert!((x as u64) > 2 * (n as u64 - 1)
+                || spec_parent_sibling_ok(x as u64, n as u64, r.as_ref().map(|ps| (ps.parent as u64, ps.sibling as u64))));
         }
 
         // modular: the loop body's callee is replaced by its (separately proved) contract
@@ -171,40 +176,52 @@ per_level!(
 #[kani::unwind(27)]
 fn c20_left() {
     let x: u32 = kani::any();
-    let _ = x.left_unchecked();
+    kani::assume(x & 1 == 1 && (x as u64) < MAX_NODES);
+    let r = x.left_unchecked();
+    assert!(spec_child_ok(x as u64, r as u64, false));
 }
 
 #[kani::proof_for_contract(<u32 as TreeIndex>::right_unchecked)]
 #[kani::unwind(27)]
 fn c20_right() {
     let x: u32 = kani::any();
-    let _ = x.right_unchecked();
+    kani::assume(x & 1 == 1 && (x as u64) < MAX_NODES);
+    let r = x.right_unchecked();
+    assert!(spec_child_ok(x as u64, r as u64, true));
 }
 
 #[kani::proof_for_contract(<u32 as TreeIndex>::is_leaf)]
 #[kani::unwind(27)]
 fn c20_is_leaf() {
     let x: u32 = kani::any();
-    let _ = x.is_leaf();
+    let r = x.is_leaf();
+    assert!(r == spec_is_leaf(x as u64));
 }
 
 #[kani::proof_for_contract(<u32 as TreeIndex>::is_in_tree)]
 fn c20_is_in_tree() {
     let x: u32 = kani::any();
-    let r: u32 = kani::any();
-    let _ = x.is_in_tree(&r);
+    let root: u32 = kani::any();
+    kani::assume((root as u64) < (1u64 << 31));
+    let r = x.is_in_tree(&root);
+    assert!(r == ((x as u64) <= 2 * (root as u64)));
 }
 
 #[kani::proof_for_contract(leaf_lca_level)]
 #[kani::unwind(34)]
 fn c20_leaf_lca_level() {
-    let _ = leaf_lca_level(kani::any(), kani::any());
+    let (x, y): (u32, u32) = (kani::any(), kani::any());
+    let k = leaf_lca_level(x, y);
+    assert!(spec_lca_level_ok(x, y, k));
 }
 
 #[kani::proof_for_contract(subtree)]
 #[kani::unwind(27)]
 fn c20_subtree() {
-    let _ = subtree(kani::any());
+    let x: u32 = kani::any();
+    kani::assume((x as u64) < MAX_NODES);
+    let r = subtree(x);
+    assert!(spec_subtree_ok(x as u64, *r.left as u64, *r.right as u64));
 }
 
 /// `left()` / `right()` (the checked variants used by the secret tree): None exactly on leaves.
